@@ -60,7 +60,7 @@ class ExprArraySubscriptModel(ExprModel):
     def val(self):
         index = int(self.rhs.val())
         if isinstance(self.lhs, ExprFieldRefModel):
-            return self.lhs.fm.field_l[index].val()
+            return self.lhs.fm.field_l[index].get_val()
         else:
             # TODO: support array slicing
             raise NotImplementedError("Cannot subscript an lvalue of type " + str(type(self.lhs)))
